@@ -1,6 +1,14 @@
 (* Model of /repo/pkg/lql/tagseval.go: BuildTagsExpFuncBySource compiles a source condition into a
-   closure over tag sets.  The builder state (teb.tef, possibly a nil func) is explicit because the LIKE case
-   leaves it untouched on a malformed pattern.  path.Match, strings.ToUpper/ToLower are oracles.
+   closure over tag sets.  path.Match, strings.ToUpper/ToLower are oracles.
+   The builder state (teb.tef, possibly a nil func) is explicit, and the builders carry a variant flag [sh]
+   for the LIKE case of buildTagCond, which probes the pattern with path.Match(value, "abc"):
+     sh = false  `_, err = path.Match(..)`: the probe's error is the function's result, a malformed pattern
+                 is refused (the code since the fix);
+     sh = true   `_, err := path.Match(..)`: a fresh err shadows the result: no error is returned and
+                 teb.tef stays as it was, a nil func or the closure of the condition before (the code
+                 before the fix; kept so that the theorems can say what the repair bought).
+   [code_from_like_shadow] is the variant of the code; build_source (what K runs and the theorems are
+   about) is the builder at that variant.
    Definitions only. *)
 From LR Require Export lib.Base model.KV model.Tags.
 
@@ -40,6 +48,9 @@ Definition FN_UPPER : bytes := [x55; x50; x50; x45; x52].
 Definition FN_LOWER : bytes := [x4c; x4f; x57; x45; x52].
 Definition PROBE : bytes := [x61; x62; x63].   (* "abc" *)
 
+(* tagseval.go buildTagCond, case CMP_LIKE: `_, err = path.Match(cn.Value, "abc")` (was `_, err :=` before the fix) *)
+Definition code_from_like_shadow : bool := false.
+
 Section WithOracles.
   Variable upper lower : bytes -> bytes.                 (* strings.ToUpper / ToLower *)
   Variable pmatch : bytes -> bytes -> option bool.       (* path.Match(pattern, name): None = ErrBadPattern *)
@@ -62,6 +73,9 @@ Section WithOracles.
         end
     end.
 
+  Section Variant.
+  Variable sh : bool.     (* the LIKE probe's err is shadowed (see the head of the file) *)
+
   (* buildTagCond: returns None on error, else the new teb.tef (given the current one) *)
   Definition build_cond (c : cond) (cur : option tefn) : option (option tefn) :=
     match build_ident (c_ident c) with
@@ -77,7 +91,8 @@ Section WithOracles.
         else if bytes_eqb op OP_EQ then Some (Some (fun m => Ok (bytes_eqb (tvf m) v)))
         else if bytes_eqb op OP_LIKE then
           match pmatch v PROBE with
-          | None => Some cur         (* `_, err := path.Match` shadows err: no error is returned, tef stays *)
+          | None => if sh then Some cur   (* `_, err := path.Match` shadows err: no error is returned, tef stays *)
+                    else None             (* the probe's error is returned *)
           | Some _ => Some (Some (fun m => Ok (match pmatch v (tvf m) with Some b => b | None => false end)))
           end
         else if bytes_eqb op OP_CONTAINS then Some (Some (fun m => Ok (contains (tvf m) v)))
@@ -164,12 +179,15 @@ Section WithOracles.
     end.
 
   (* BuildTagsExpFuncBySource: None = error; Some None = a nil func without an error *)
-  Definition build_source (s : source) : option (option tefn) :=
+  Definition build_source_v (s : source) : option (option tefn) :=
     match s with
     | STags q => Some (Some (fun m => Ok (map_subset q m)))
     | SExpr None => Some (Some positive)
     | SExpr (Some e) => build_ors e None
     end.
+  End Variant.
+  (* the code *)
+  Definition build_source : source -> option (option tefn) := build_source_v code_from_like_shadow.
 
   (* ---- reference meaning of a tag expression ---- *)
   Fixpoint ref_ident (id : ident) (m : kvmap) : bytes :=
@@ -195,6 +213,8 @@ Section WithOracles.
   (* every LIKE pattern is well-formed for path.Match *)
   Definition cond_like_ok (c : cond) : bool :=
     if bytes_eqb (upper (c_op c)) OP_LIKE then (match pmatch (c_value c) PROBE with Some _ => true | None => false end) else true.
+  (* a condition the builder must accept: well-formed, and its LIKE pattern (if any) is one path.Match accepts *)
+  Definition cond_ok (c : cond) : bool := cond_wf c && cond_like_ok c.
   Definition ref_cond (c : cond) (m : kvmap) : bool :=
     let x := ref_ident (c_ident c) m in
     let v := c_value c in
